@@ -58,6 +58,7 @@ impl<F: PrimeField> Model<F> {
             Sc::C(c) => c.to_f(),
             Sc::MulReg(c, r) => c.to_f::<F>() * self.regs.get(*r).copied().unwrap_or(F::one()),
             Sc::AddReg(c, r) => c.to_f::<F>() + self.regs.get(*r).copied().unwrap_or(F::zero()),
+            Sc::Prod(v) => v.iter().map(|c| c.to_f::<F>()).product(),
         }
     }
     pub fn val(&self, v: &Var) -> F {
